@@ -388,7 +388,19 @@ func c13URLSplitting(w *World, r *Report) {
 			if !isC || !isCallTo(c, "fmt.Errorf") {
 				continue
 			}
-			if s, _ := constString(c.Call.Args[0]); !strings.Contains(s, "wildcard") {
+			// the rejection of a wildcard part: the error returned under part.Value == "*"
+			// (identified by that condition, not by the wording of the message)
+			isWild := false
+			for _, cd := range expandConds(alt.Conds) {
+				if rel, isRel := NormCond(cd); isRel && rel.Op == "==" {
+					for _, side := range [][2]ssa.Value{{rel.L, rel.R}, {rel.R, rel.L}} {
+						if cv, isS := constString(side[1]); isS && cv == "*" && strings.HasSuffix(Path(side[0]), ".Value") {
+							isWild = true
+						}
+					}
+				}
+			}
+			if !isWild {
 				continue
 			}
 			for _, cd := range expandConds(alt.Conds) {
